@@ -1,6 +1,7 @@
 //! `sqv` — verification harness for quarylabs/sqruff (see /verif/DESIGN.md).
 //! One subcommand per property; every subcommand writes JSON lines to `--out`.
 mod common;
+mod pem;
 mod c01;
 mod c02;
 mod c03;
@@ -50,6 +51,7 @@ fn main() {
         "c18" => c18::main(&args),
         "c19" => c19::main(&args),
         "c20" => c20::main(&args),
+        "pem" => pem::main(&args),
         other => {
             eprintln!("unknown subcommand {other}");
             std::process::exit(2);
